@@ -200,11 +200,22 @@ def _registry():
     reg('find', C + 'find', find_gen, lambda f, a: f(a['f'], a['template']))
 
     def wav_gen(g):
-        return dict(f=g.fl((2 * g.r.randint(2, 4), 2 * g.r.randint(2, 4))))
+        # every 2-D size is in the documented domain (odd axis lengths included: the last coefficient of an odd row is 0)
+        if g.r.random() < 0.5:
+            return dict(f=g.fl((2 * g.r.randint(2, 4), 2 * g.r.randint(2, 4))))
+        return dict(f=g.fl((g.r.randint(2, 9), g.r.randint(2, 9))))
     reg('haar', C + 'haar', wav_gen, lambda f, a: f(a['f']))
     reg('ihaar', C + 'ihaar', wav_gen, lambda f, a: f(a['f']))
     reg('daubechies', C + 'daubechies', wav_gen, lambda f, a: f(a['f'], 'D4'))
     reg('idaubechies', C + 'idaubechies', wav_gen, lambda f, a: f(a['f'], 'D4'))
+    # round 4: `inline=True` — the caller's own (possibly non-contiguous) array is transformed in place and returned; the
+    # VALUE must still be a function of the logical content (rows are walked with `stride(1)`, columns through `f.T`)
+    reg('haar_inline', C + 'haar', wav_gen, lambda f, a: np.array(f(a['f'], inline=True)), no_readonly=['f'], canvas=['f'])
+    reg('ihaar_inline', C + 'ihaar', wav_gen, lambda f, a: np.array(f(a['f'], inline=True)), no_readonly=['f'], canvas=['f'])
+    reg('daubechies_inline', C + 'daubechies', wav_gen, lambda f, a: np.array(f(a['f'], 'D4', inline=True)),
+        no_readonly=['f'], canvas=['f'])
+    reg('idaubechies_inline', C + 'idaubechies', wav_gen, lambda f, a: np.array(f(a['f'], 'D6', inline=True)),
+        no_readonly=['f'], canvas=['f'])
     reg('wavelet_center', C + 'wavelet_center', lambda g: dict(f=g.fl(g.shape(2, 3))), lambda f, a: f(a['f']))
     reg('wavelet_decenter', C + 'wavelet_decenter', lambda g: dict(w=g.fl((8, 8))), lambda f, a: f(a['w'], (5, 6)))
 
